@@ -282,11 +282,31 @@ def run_real(op):
     return out
 
 
+def _beside(iterable):
+    """an endless, never-raising stepper over another iterator (used to keep a second lexer alive)"""
+    it = iter(iterable)
+    while True:
+        try:
+            yield next(it)
+        except Exception:  # noqa: BLE001
+            while True:
+                yield None
+
+
 def _run_real(op):
     name = op['op']
     if name == 'lex':
         pat = _lexer.TRIPLE_RE if op.get('mode') == 'triples' else _lexer.PENMAN_RE
         k = op.get('consume')
+        if op.get('beside') is not None:
+            # a second lexer, on another input, is alive and advanced token by token while this one is
+            # consumed (zip(iterparse(gold), iterparse(system)) does this): the tokens are still this input's
+            it, other, toks = iter(_lexer.lex(_input(op), pattern=pat)), _beside(_lexer.lex(op['beside'], pattern=pat)), []
+            next(other)
+            for tok in it:
+                toks.append(tok)
+                next(other)
+            return _toks(toks)
         if k is None:
             return _toks(_lexer.lex(_input(op), pattern=pat))
         # the same tokens through a mixed use of the iterator protocol: a for-loop left after k
@@ -316,6 +336,12 @@ def _run_real(op):
         try:
             it = penman.PENMANCodec().iterparse(_input(op)) if op.get('via') == 'codec' else penman.iterparse(_input(op))
             it = iter(it)
+            if op.get('beside') is not None:
+                other = _beside(penman.iterparse(op['beside']))
+                next(other)
+                for t in it:
+                    trees.append(j_tree(t))
+                    next(other)
             for _ in range(op.get('consume') or 0):      # next() a few times, then a for-loop over the rest
                 try:
                     trees.append(j_tree(next(it)))
